@@ -29,6 +29,7 @@
 EXTENDS Integers, Sequences, TLC, Json
 
 CONSTANTS UnsupportedRule,   \* "rewrite" | "pass"
+          CspRule,           \* "firstline" (as coded: first header line, no policy-list splitting) | "policylist" (repaired)
           LengthRule,        \* "set" (as coded) | "forget" (plausible bug for the negative config)
           EmitCases
 
@@ -39,29 +40,104 @@ vars == <<cfg, hdr, body, pc, path>>
 ContentTypes == {"html", "htmlcharset", "other", "none"}
 Encodings    == {"none", "gzip", "br", "unsupported"}
 Requests     == {"plain", "htmx"}
-Csps         == {"none", "scriptsrc", "several", "otheronly", "nononce", "afterother", "defaultfirst"}
+Csps         == {"none", "scriptsrc", "several", "otheronly", "nononce", "afterother", "defaultfirst",
+                 "linesfirst", "linessecond", "commafirst", "commasecond"}
 Bodies       == {"empty", "fragment", "full", "scriptbody", "nonascii", "scripts", "frameset"}
 Accepts      == {"browser", "absent"}
 
 IsHtml(ct) == ct \in {"html", "htmlcharset"}           \* strings.HasPrefix(contentType, "text/html")
 HasBody(b) == b # "frameset"                           \* html.Parse synthesises html/head/body for everything else
 
-\* the nonces a browser accepts for a script element under the page's policy (symbolic names; the harness
-\* owns the concrete header strings): the nonce sources of the script-src directive
-ScriptNonces(csp) == CASE csp = "scriptsrc"  -> {"N1"}
-                       [] csp = "several"    -> {"N1", "N2"}
-                       [] csp = "afterother" -> {"N1"}
-                       [] csp = "defaultfirst" -> {"N1"}     \* default-src carries a DIFFERENT nonce in front of script-src
-                       [] OTHER              -> {}
-\* parseNonce: the first nonce source of the first script-src directive that has one
-ParseNonce(csp) == CASE csp \in {"scriptsrc", "several", "afterother", "defaultfirst"} -> "N1"
-                     [] OTHER -> ""
+-----------------------------------------------------------------------------
+(* Content-Security-Policy. A response carries zero or more header LINES; each line is a comma-separated list
+   of policies; a policy is a ;-separated list of directives; a directive is a name and sources. The browser
+   enforces every policy of every line. Sources are abstract: a nonce source (symbolic name, the harness owns
+   the concrete value) or anything else. `comma` marks a token to which parseNonce -- which splits on ";" and
+   white space only -- leaves the policy separator attached.                                                *)
+Nonce(n) == [kind |-> "nonce", n |-> n, comma |-> FALSE]
+Other    == [kind |-> "other", n |-> "", comma |-> FALSE]
+Dir(name, srcs) == [name |-> name, srcs |-> srcs]
+
+PolFrame   == << Dir("frame-ancestors", <<Other>>) >>                                   \* a policy that says nothing about scripts
+PolScript1 == << Dir("default-src", <<Other>>), Dir("script-src", <<Other, Nonce("N1")>>) >>  \* the nonce is the LAST token of the policy
+
+CspLines(csp) ==
+    CASE csp = "none"         -> <<>>
+      [] csp = "scriptsrc"    -> << << << Dir("default-src", <<Other>>), Dir("img-src", <<Other>>),
+                                          Dir("script-src", <<Other, Nonce("N1"), Other>>), Dir("style-src", <<Other, Nonce("S1")>>) >> >> >>
+      [] csp = "several"      -> << << << Dir("script-src", <<Other, Nonce("N1"), Nonce("N2")>>), Dir("style-src", <<Nonce("S1")>>),
+                                          Dir("object-src", <<Other>>) >> >> >>
+      [] csp = "otheronly"    -> << << << Dir("default-src", <<Other>>), Dir("style-src", <<Other, Nonce("S1")>>), Dir("img-src", <<Other>>) >> >> >>
+      [] csp = "nononce"      -> << << << Dir("default-src", <<Other>>), Dir("script-src", <<Other, Other, Other>>), Dir("connect-src", <<Other>>) >> >> >>
+      [] csp = "afterother"   -> << << << Dir("style-src", <<Nonce("S1")>>), Dir("font-src", <<Other>>), Dir("script-src", <<Nonce("N1")>>) >> >> >>
+      [] csp = "defaultfirst" -> << << << Dir("default-src", <<Other, Nonce("D1")>>), Dir("script-src", <<Other, Nonce("N1")>>) >> >> >>
+      \* several header lines
+      [] csp = "linesfirst"   -> << <<PolScript1>>, <<PolFrame>> >>      \* script nonce in the first line, another policy line after it
+      [] csp = "linessecond"  -> << <<PolFrame>>, <<PolScript1>> >>      \* script nonce in the second line only
+      \* one header line that is a comma-separated policy list (what intermediaries make of several lines)
+      [] csp = "commafirst"   -> << <<PolScript1, PolFrame>> >>
+      [] csp = "commasecond"  -> << <<PolFrame, PolScript1>> >>
+
+RECURSIVE Concat(_)
+Concat(ss) == IF ss = <<>> THEN <<>> ELSE Head(ss) \o Concat(Tail(ss))
+Policies(csp) == Concat(CspLines(csp))                 \* every policy the browser enforces
+
+NoncesOfSrcs(srcs) == {srcs[i].n : i \in {j \in 1..Len(srcs) : srcs[j].kind = "nonce"}}
+PolicyScriptNonces(p) == UNION {NoncesOfSrcs(p[i].srcs) : i \in {j \in 1..Len(p) : p[j].name = "script-src"}}
+\* the nonces a browser accepts for a script element: a nonce that every policy restricting scripts by nonce lists
+ScriptNonces(csp) ==
+    LET ps == Policies(csp)
+        restricting == {i \in 1..Len(ps) : PolicyScriptNonces(ps[i]) # {}}
+    IN  IF restricting = {} THEN {}
+        ELSE {n \in UNION {PolicyScriptNonces(ps[i]) : i \in restricting} : \A i \in restricting : n \in PolicyScriptNonces(ps[i])}
+
+NoNonce == [n |-> "", mangled |-> FALSE]
+RECURSIVE FirstNonceSrcs(_)
+FirstNonceSrcs(srcs) == IF srcs = <<>> THEN NoNonce
+                        ELSE IF Head(srcs).kind = "nonce" THEN [n |-> Head(srcs).n, mangled |-> Head(srcs).comma]
+                        ELSE FirstNonceSrcs(Tail(srcs))
+\* parseNonce on one ;-separated directive list: the first nonce source of the first script-src directive that has one
+RECURSIVE FirstNonceDirs(_)
+FirstNonceDirs(dirs) == IF dirs = <<>> THEN NoNonce
+                        ELSE LET r == IF Head(dirs).name = "script-src" THEN FirstNonceSrcs(Head(dirs).srcs) ELSE NoNonce
+                             IN  IF r # NoNonce THEN r ELSE FirstNonceDirs(Tail(dirs))
+\* what the text of a comma-separated policy list looks like to code that splits on ";" and white space only: the
+\* comma sticks to the last source of a policy, and the next policy's first directive (name and sources) becomes
+\* further sources of that policy's last directive
+MarkComma(srcs) == [i \in 1..Len(srcs) |-> IF i = Len(srcs) THEN [srcs[i] EXCEPT !.comma = TRUE] ELSE srcs[i]]
+RECURSIVE FlattenNoCommaSplit(_)
+FlattenNoCommaSplit(pols) ==
+    IF Len(pols) = 1 THEN pols[1]
+    ELSE LET p == pols[1]
+             rest == FlattenNoCommaSplit(Tail(pols))
+             merged == Dir(p[Len(p)].name, MarkComma(p[Len(p)].srcs) \o <<Other>> \o rest[1].srcs)
+         IN  SubSeq(p, 1, Len(p) - 1) \o <<merged>> \o Tail(rest)
+RECURSIVE FirstNoncePolicies(_)
+FirstNoncePolicies(pols) == IF pols = <<>> THEN NoNonce
+                            ELSE IF FirstNonceDirs(Head(pols)) # NoNonce THEN FirstNonceDirs(Head(pols))
+                            ELSE FirstNoncePolicies(Tail(pols))
+\* CspRule "firstline": as coded -- r.Header.Get (first header line only) handed to parseNonce as one policy;
+\*         "policylist": repaired -- every policy of every line is looked at
+ParseNonce(csp) ==
+    LET lines == CspLines(csp) IN
+    IF lines = <<>> THEN NoNonce
+    ELSE IF CspRule = "firstline" THEN FirstNonceDirs(FlattenNoCommaSplit(lines[1]))
+    ELSE FirstNoncePolicies(Policies(csp))
+\* the branch of the nonce extraction an exchange goes through (root-cause attribution)
+NonceBranch(csp) ==
+    LET r == ParseNonce(csp) IN
+    CASE CspLines(csp) = <<>>                -> "ParseNonce.NoPolicy"
+      [] ScriptNonces(csp) = {}              -> "ParseNonce.NoScriptNonce"
+      [] r.mangled                           -> "ParseNonce.CommaJoinedPolicies"
+      [] r = NoNonce /\ FirstNoncePolicies(CspLines(csp)[1]) # NoNonce -> "ParseNonce.CommaJoinedPolicies"
+      [] r = NoNonce                         -> "ParseNonce.OnlyFirstHeaderLine"
+      [] OTHER                               -> "ParseNonce.Found"
 
 Init ==
     /\ cfg \in [ct : ContentTypes, enc : Encodings, req : Requests, skip : BOOLEAN, csp : Csps,
                 body : Bodies, accept : Accepts]
     /\ hdr = [ct |-> cfg.ct, enc |-> cfg.enc, skip |-> cfg.skip, csp |-> cfg.csp, cl |-> "match"]
-    /\ body = [doc |-> cfg.body, inserted |-> 0, nonce |-> "", coding |-> cfg.enc, bytes |-> "backend"]
+    /\ body = [doc |-> cfg.body, inserted |-> 0, nonce |-> NoNonce, coding |-> cfg.enc, bytes |-> "backend"]
     /\ pc = "transport"
     /\ path = <<>>
 
@@ -106,10 +182,10 @@ Insert ==
     /\ IF body.coding # "none"
        THEN \* encoded bytes parsed as if they were HTML: whatever comes out is not the document any more
             /\ body' = [body EXCEPT !.bytes = "mangled", !.inserted = 1, !.nonce = ParseNonce(hdr.csp)]
-            /\ Go("encode", "Insert.IntoEncodedBytes")
+            /\ pc' = "encode" /\ path' = path \o <<"Insert.IntoEncodedBytes", NonceBranch(hdr.csp)>>
        ELSE IF HasBody(body.doc)
             THEN /\ body' = [body EXCEPT !.bytes = "rendered", !.inserted = 1, !.nonce = ParseNonce(hdr.csp)]
-                 /\ Go("encode", "Insert.AppendedToBody")
+                 /\ pc' = "encode" /\ path' = path \o <<"Insert.AppendedToBody", NonceBranch(hdr.csp)>>
             ELSE /\ UNCHANGED body /\ Go("encode", "Insert.BodyNotFound")
     /\ UNCHANGED <<cfg, hdr>>
 
@@ -155,7 +231,8 @@ HtmlGetsExactlyOneScript ==
     (Done /\ ~MustPass) =>
         /\ body.doc = cfg.body /\ body.bytes # "mangled"
         /\ body.inserted = (IF HasBody(cfg.body) THEN 1 ELSE 0)
-        /\ body.inserted = 1 => (IF ScriptNonces(cfg.csp) = {} THEN body.nonce = "" ELSE body.nonce \in ScriptNonces(cfg.csp))
+        /\ body.inserted = 1 => (IF ScriptNonces(cfg.csp) = {} THEN body.nonce = NoNonce
+                                 ELSE ~body.nonce.mangled /\ body.nonce.n \in ScriptNonces(cfg.csp))
 
 LengthMatchesBody == Done => (hdr.cl = "match" \/ (hdr.cl = "absent" /\ body.bytes = "gunzipped"))
 
@@ -167,6 +244,6 @@ TypeOK == /\ pc \in {"transport", "mark", "decide", "decode", "insert", "encode"
 \* every terminal state = one configuration with the response the spec predicts for it
 EmitCase == (EmitCases /\ Done) =>
     PrintT(<<"CASE", ToJson([cfg |-> cfg, path |-> path, mustpass |-> MustPass, inserted |-> body.inserted,
-                             nonce |-> body.nonce, nonces |-> ScriptNonces(cfg.csp), enc |-> hdr.enc, cl |-> hdr.cl,
+                             nonce |-> body.nonce, nonces |-> ScriptNonces(cfg.csp), csplines |-> CspLines(cfg.csp), enc |-> hdr.enc, cl |-> hdr.cl,
                              bytes |-> body.bytes])>>)
 =============================================================================
